@@ -207,7 +207,7 @@ func NewProvider(cfg ProviderConfig, keys *KeyStore) *Provider {
 
 	stateBytes, err := json.Marshal(gs)
 	Must(err, "marshal genesis")
-	p.Chain.InitChain(GenesisTime, stateBytes, simtestutil.DefaultConsensusParams)
+	p.Chain.InitChain(GenesisTime, stateBytes, ConsensusParams())
 
 	sk := app.StakingKeeper
 	p.Chain.VoteFilter = func(addr []byte) bool {
@@ -262,4 +262,14 @@ func (p *Provider) Dispatch(msg sdk.Msg) (err error) {
 		write()
 	}
 	return err
+}
+
+// ConsensusParams are the simapp defaults without a block gas limit (blocks with hundreds of messages are generated).
+func ConsensusParams() *cmtproto.ConsensusParams {
+	cp := *simtestutil.DefaultConsensusParams
+	blk := *cp.Block
+	blk.MaxGas = -1
+	blk.MaxBytes = 20_000_000
+	cp.Block = &blk
+	return &cp
 }
